@@ -12,3 +12,61 @@ def gen_topk(items):
         return (D('TOPN_CAP_MIN', int(m.group(1)), 'top_n.max(_) in new_with_comparator') + '\n'
                 + D('TOPN_CAP_FACTOR', int(m.group(2)), 'vec_cap = top_n.max(1) * _'))
     items.append(cap)
+    def lazy_tuple():
+        # the lazy evaluation of tuple sort keys (Model/LazyKey.lean mirrors these bodies)
+        path = 'src/collector/sort_key/sort_key_computer.rs'
+        text = strip_comments(src(path))
+        def bodies(name):
+            out = []
+            for m in re.finditer(r'\bfn\s+' + re.escape(name) + r'\b[^{;]*\{', text):
+                i = m.end(); depth = 1
+                while depth and i < len(text):
+                    depth += (text[i] == '{') - (text[i] == '}')
+                    i += 1
+                out.append(re.sub(r'\s+', '', text[m.end():i - 1]))
+            return out
+        accept = bodies('accept_sort_key_lazy')
+        want_accept = [
+            # the trait's default: full comparison with the computer's own comparator
+            'letsort_key=self.segment_sort_key(doc_id,score);letcmp=self.compare_segment_sort_key(&sort_key,threshold);'
+            'ifcmp==Ordering::Less{None}else{Some((cmp,sort_key))}',
+            # (Head, Tail)
+            'let(head_threshold,tail_threshold)=threshold;let(head_cmp,head_sort_key)=self.0.accept_sort_key_lazy(doc_id,score,head_threshold)?;'
+            'ifhead_cmp==Ordering::Equal{let(tail_cmp,tail_sort_key)=self.1.accept_sort_key_lazy(doc_id,score,tail_threshold)?;'
+            'Some((tail_cmp,(head_sort_key,tail_sort_key)))}else{lettail_sort_key=self.1.segment_sort_key(doc_id,score);'
+            'Some((head_cmp,(head_sort_key,tail_sort_key)))}',
+            # MappedSegmentSortKeyComputer (3- and 4-tuples): forwarded to the chain
+            'self.sort_key_computer.accept_sort_key_lazy(doc_id,score,threshold)',
+        ]
+        if accept != want_accept:
+            raise Fail(f'{path}: the accept_sort_key_lazy implementations (default, (Head, Tail), MappedSegmentSortKeyComputer) '
+                       f'are no longer the ones Model/LazyKey.lean mirrors: found {len(accept)} bodies {accept}')
+        cmp_pair = 'self.0.compare_segment_sort_key(&left.0,&right.0).then_with(||self.1.compare_segment_sort_key(&left.1,&right.1))'
+        if cmp_pair not in bodies('compare_segment_sort_key'):
+            raise Fail(f'{path}: compare_segment_sort_key of (Head, Tail) is no longer head.then_with(tail)')
+        collect_pair = ('letsort_key:Self::SegmentSortKey;ifletSome(threshold)=&top_n_computer.threshold{'
+                        'ifletSome((_cmp,lazy_sort_key))=self.accept_sort_key_lazy(doc,score,threshold){sort_key=lazy_sort_key;}else{return;}}'
+                        'else{sort_key=self.segment_sort_key(doc,score);};top_n_computer.append_doc(doc,sort_key);')
+        if collect_pair not in bodies('compute_sort_key_and_collect'):
+            raise Fail(f'{path}: compute_sort_key_and_collect of (Head, Tail) changed shape')
+        comps = bodies('comparator')
+        for n in (2, 3, 4):
+            want = '(' + ','.join(f'self.{i}.comparator()' for i in range(n)) + ',)'
+            want2 = '(' + ','.join(f'self.{i}.comparator()' for i in range(n)) + ')'
+            if want not in comps and want2 not in comps:
+                raise Fail(f'{path}: the {n}-tuple SortKeyComputer does not forward comparator() to its components '
+                           f'(the collector would order every component naturally: C06:four-tuple-sort-key-ignores-orders)')
+        return D('LAZY_TUPLE_SHAPE', 1, 'accept_sort_key_lazy: default = full comparison; (Head, Tail) = head, then tail only on Equal; Mapped adapter forwards; pair compare = head.then_with(tail); collect appends iff accepted')
+    items.append(lazy_tuple)
+    def blockwand_pair():
+        # the block-max pair stored per block = arg-max of the tf factor (Proofs/BlockMaxPair.lean::maxByQ mirrors it)
+        path = 'src/postings/serializer.rs'
+        text = re.sub(r'\s+', '', strip_comments(src(path)))
+        want = ('blockwand_params=fieldnorms.zip(term_freqs).max_by(|(left_fieldnorm_id,left_term_freq),(right_fieldnorm_id,right_term_freq)|{'
+                'letleft_score=bm25_weight.tf_factor(*left_fieldnorm_id,*left_term_freq);'
+                'letright_score=bm25_weight.tf_factor(*right_fieldnorm_id,*right_term_freq);'
+                'left_score.partial_cmp(&right_score).unwrap_or(Ordering::Equal)},).unwrap();')
+        if want not in text or 'let(fieldnorm_id,term_freq)=blockwand_params;self.skip_write.write_blockwand_max(fieldnorm_id,term_freq);' not in text:
+            raise Fail(f'{path}: the block-max (fieldnorm_id, term_freq) pair is no longer the max_by of Bm25Weight::tf_factor over the block')
+        return D('BLOCKWAND_PAIR_IS_ARGMAX_TF_FACTOR', 1, 'serializer: blockwand_params = max_by tf_factor over the block, written with write_blockwand_max')
+    items.append(blockwand_pair)
